@@ -309,9 +309,9 @@ func (r *UnitRun) evalDistuv(st *State, sel *ast.SelectorExpr, e *ast.CallExpr) 
 			p2 = toReal(v)
 		}
 	}
-	r.needNamed("draw", `(declare-fun drawUniform (Real Real Int) Real)
-(declare-fun drawNormal (Real Real Int) Real)
-(assert (forall ((a Real) (b Real) (k Int)) (! (=> (< a b) (and (<= a (drawUniform a b k)) (< (drawUniform a b k) b))) :pattern ((drawUniform a b k)))))`)
+	// the draw functions and their axioms belong to the domain functions isDrawU / isDrawN
+	r.needDomain("isDrawU")
+	r.needDomain("isDrawN")
 	r.assumption("gonum distuv.{Uniform,Normal}.Rand(): assumed contract - the k-th call returns draw(kind, p1, p2, k) and advances the ghost tick by one; Uniform draws lie in [Min, Max); that distinct ticks are independent samples of the named law is not checked")
 	tick, ok := st.ghost["tick"]
 	if !ok {
